@@ -221,14 +221,14 @@ package ctlog
 //@   ensures [C04] edge-stays-consistent: l.tree.N >= 0 && (l.tree.N % 256 == 0 ==> ((!has(l.edgeTiles, -1) || l.edgeTiles[-1].W == 256) && (!has(l.edgeTiles, -2) || l.edgeTiles[-2].W == 256)))
 //@   ensures [C06,C17] error-is-fatal: ret != nil ==> Is(ret, errFatal)
 
-//@ func ctlog.(*Log).RunSequencer props C06 C17
+//@ func ctlog.(*Log).RunSequencer props C02 C03 C04 C06 C17
 //@   requires l != nil && l.c != nil && l.currentPool != nil && !held(&l.poolMu) && realizable(l.tree.Tree) && !closed(l.currentPool.done)
 //@   requires l.tree.N >= 0 && (l.tree.N % 256 == 0 ==> ((!has(l.edgeTiles, -1) || l.edgeTiles[-1].W == 256) && (!has(l.edgeTiles, -2) || l.edgeTiles[-2].W == 256)))
 //@   invariant "for" alive: l.currentPool != nil && !held(&l.poolMu) && realizable(l.tree.Tree) && !closed(l.currentPool.done)
 //@   invariant "for" edge: l.tree.N >= 0 && (l.tree.N % 256 == 0 ==> ((!has(l.edgeTiles, -1) || l.edgeTiles[-1].W == 256) && (!has(l.edgeTiles, -2) || l.edgeTiles[-2].W == 256)))
 //@   call ctlog.(*Log).sequence requires [C17] only-while-accepting: gAccepting
-//@   ensures [C17] stops-with-error: err != nil
-//@   ensures [C06,C17] pool-failed-and-released: closed(l.currentPool.done) && l.currentPool.err == err && !held(&l.poolMu)
+//@   ensures [C02,C03,C04,C17] stops-with-error: err != nil
+//@   ensures [C02,C03,C04,C06,C17] pool-failed-and-released: closed(l.currentPool.done) && l.currentPool.err == err && !held(&l.poolMu)
 
 //@ census [C17] sequence-callers: callers ctlog.(*Log).sequence within ctlog.(*Log).RunSequencer in ctlog
 //@ census [C01,C06] lock-replace-sites: callers ctlog.LockBackend.Replace within ctlog.(*Log).sequencePool in ctlog
@@ -273,6 +273,24 @@ package ctlog
 //@ census [C13] no-direct-file-writes: callers os.WriteFile within none in ctlog durable
 //@ census [C13] no-os-create: callers os.Create within none in ctlog durable
 //@ census [C13] rename-sites: callers os.Rename within durable.WriteFile in ctlog durable
+
+// ---- S3 object storage backend: one PUT per attempt (primary and hedge), both racing under one cancellable context
+//@ func ctlog.(*S3Backend).Upload props C01 C03 C04
+//@   requires s != nil && s.client != nil
+//@   call context.WithCancelCause bind raceCtx = ret0
+//@   call s3.(*Client).PutObject requires [C01,C04] every-attempt-is-cancelled-when-the-race-is-decided: c_ctx == raceCtx
+//@   call s3.(*Client).PutObject requires [C01,C04] object-bucket-key-and-bytes: c_recv == s.client && *c_params.Bucket == s.bucket && *c_params.Key == s.keyPrefix + key && *c_params.ContentLength == len(data) && typeof(c_params.Body) == typeid("*bytes.Reader") && cast(c_params.Body, "*bytes.Reader").gsrc == data
+//@   call s3.(*Client).PutObject requires [C03,C04] unconditional-put: c_params.IfNoneMatch == nil && c_params.IfMatch == nil && len(c_optFns) == 0
+//@   call s3.(*Client).PutObject requires [C04] metadata-from-the-upload-options: ((opts != nil && opts.ContentType != "") ==> *c_params.ContentType == opts.ContentType) && ((opts == nil || opts.ContentType == "") ==> *c_params.ContentType == "application/octet-stream") && ((opts != nil && opts.Compressed) ==> (c_params.ContentEncoding != nil && *c_params.ContentEncoding == "gzip")) && ((opts == nil || !opts.Compressed) ==> c_params.ContentEncoding == nil) && ((opts != nil && opts.Immutable) ==> (c_params.CacheControl != nil && *c_params.CacheControl == "public, max-age=604800, immutable")) && ((opts == nil || !opts.Immutable) ==> c_params.CacheControl == nil)
+//@ assume func context.WithCancelCause params parent
+//@   ensures ret0 != nil && ret1 != nil
+//@ assume func aws.Int64 params v
+//@   ensures ret != nil && *ret == v
+
+//@ func ctlog.(*S3Backend).Fetch props C04 C08
+//@   requires s != nil && s.client != nil
+//@   call s3.(*Client).GetObject requires [C04,C08] fetches-the-named-object: c_recv == s.client && *c_params.Bucket == s.bucket && *c_params.Key == s.keyPrefix + key
+//@   returns [C04,C08] data-only-from-a-complete-read: ret1 == nil ==> (err == nil && ret0 == data)
 
 // ---- lock backends (C05, reduced form: each method issues exactly one atomic primitive with the right shape)
 
@@ -386,8 +404,8 @@ package ctlog
 
 // ---- deduplication key (C07): one specification for both copies of computeCacheHash
 //@ pure func cacheKeyBytes(isPrecert bool, ikh bytes, cert bytes) bytes = ite(isPrecert, u16(1) + ikh + u24(len(cert)) + cert, u16(0) + u24(len(cert)) + cert)
-//@ func ctlog.computeCacheHash props C07
-//@   ensures [C07] key-is-hash-of-type-issuer-and-certificate: ret == sha256Of(cacheKeyBytes(IsPrecert, IssuerKeyHash, Certificate))
+//@ func ctlog.computeCacheHash props C02 C07
+//@   ensures [C02,C07] key-is-hash-of-type-issuer-and-certificate: ret == sha256Of(cacheKeyBytes(IsPrecert, IssuerKeyHash, Certificate))
 
 //@ func ctlog.(*PendingLogEntry).asLogEntry props C02 C04 C07
 //@   ensures [C02,C04,C07] sequenced-entry-is-the-pending-entry-at-index: ret != nil && ret.LeafIndex == idx && ret.Timestamp == timestamp && ret.Certificate == e.Certificate && ret.IsPrecert == e.IsPrecert && ret.IssuerKeyHash == e.IssuerKeyHash && ret.PreCertificate == e.PreCertificate && !ret.RFC6962ArchivalLeaf
